@@ -1,6 +1,6 @@
 import H264.AnnexBSpec
 import H264.AnnexBOps
-import H264.ByteProof
+import H264.ByteProofC01
 /-! # C01 — Annex B NAL framing is invariant under push chunking and matches start codes
 
 Model: `AnnexB.push` / `AnnexB.reset` mirror `AnnexBReader::push` / `reset` at call level (index loop,
